@@ -10,7 +10,9 @@ preceded by a virtual delay:
 
     ['addDownload', u, dt] ['addUpload', u, dt] ['poke', dt]              (poke = any event that requests a cycle)
     ['net', k, outcome, poke, dt]      the pending network step of transfer k's task ends: ok | fail-conn | fail-write
-                                       (remote queue) / toQueue | fail | transferring | complete (upload initialisation) /
+                                       (remote queue) / toQueue | fail | transferring | complete | step (upload initialisation;
+                                       `step` = only the step it hangs at succeeds: request delivered -> the peer's reply
+                                       -> file connection -> ticket -> offset -> file) /
                                        toQueue | timeout | transferring | incomplete | complete (download initialisation: the
                                        file connection is delivered, breaks -> INCOMPLETE, or delivers everything);
                                        poke=True requests a cycle in the same step (cycle between task end and callback)
@@ -30,9 +32,31 @@ preceded by a virtual delay:
                                        model); `then` (optional) = [[k, abort|pause|remove, n], ...]: that call is made n loop
                                        iterations later, i.e. while the re-evaluation is being carried out
 
+    ['upq', k, then?, dt]              the peer sends PeerTransferQueue for upload k (again): FAILED / COMPLETE -> QUEUED; the
+                                       handler finds the transfer, asks the shares manager (suspends `share_delay`
+                                       iterations) and only then decides; `then` as above: calls made while it is suspended
+    ['upreq', k, then?, dt] ['placereq', k, dt] ['placereply', k, dt]   PeerTransferRequest(direction=upload) /
+                                       PeerPlaceInQueueRequest for upload k, PeerPlaceInQueueReply for download k
+    ['status', u, dt]                  the server reports peer u offline: `remotely_queued` of its downloads reset + cycle
+    ['aux', k, ok|fail, dt]            (cases with `aux`) the connection needed by the oldest pending message about transfer
+                                       k that is NOT part of the negotiation (PeerUploadFailed after a write error, ...) is
+                                       established / fails; until then that message hangs like any other network step
+
+Every peer / server message is delivered as a `MessageReceivedEvent` on the event bus (the manager's own dispatch), the file
+connection of a download as a `PeerInitializedEvent`.
+
 Case options: `teardown` = loop iterations a CANCELLED network step needs to unwind, `exec_delay` = loop iterations an
 executor call (aiofiles: removal of the local file under the state lock, ...) takes; both widen the window between the
-cancellation and the return of the call.
+cancellation and the return of the call.  `share_delay` = loop iterations the shares manager takes to look a file up (the
+real one asks the file system through the executor): handlers that look at the transfer first and ask then are suspended
+in between.  `aux` = messages outside the negotiation need a (slow) connection too.
+
+Inventory.  Every task of the loop is created through the run's task factory, which notes the creation site (innermost
+library frame), the creating task and what the coroutine was given; a live task the LIBRARY created is attributed to the
+transfer its arguments name (Transfer / state object / message or strings naming user and file) or that its creator works
+for.  Remote-queue attempts and initialisations are recognised by the coroutine they run (not by task name or slot); every
+other library task working for a transfer is listed as work outside its slots.  Frames and connection attempts are attributed
+by the file they name, whoever sends them.
 
 After the last op the loop runs for 120 virtual seconds (observation window).  Cycles, task first
 steps / ends / done-callbacks and call returns are logged where they happen and fed to the Lean
@@ -41,12 +65,15 @@ driver in that order.
 from __future__ import annotations
 
 import asyncio
+import os
 import random
+import sys
 from typing import Any, Optional
 
 from vlib import common, simloop
 from vlib.common import KResult, Violation, Disagreement, Property
 
+REPLIES = ('PeerTransferReply', 'PeerTransferQueueFailed', 'PeerPlaceInQueueReply')
 FIELDS = ('state', 'remotely_queued', 'queue_attempts', 'bytes_transfered', 'local_path', 'fail_reason', 'abort_reason',
           'start_time', 'complete_time', 'filesize')
 WINDOW = 120.0
@@ -61,6 +88,28 @@ def _fields(t) -> list:
             t.abort_reason, t.start_time, t.complete_time, t.filesize]
 
 
+_LISTENER_ERRORS: list = []
+
+
+def _listener_errors() -> list:
+    """Exceptions the event bus caught in a listener (`logger.exception` in `EventBus.emit`), collected by a logging handler
+    that is installed once per process."""
+    import logging
+    lg = logging.getLogger('aioslsk.events')
+    if not any(getattr(h, '_c06', False) for h in lg.handlers):
+        class H(logging.Handler):
+            _c06 = True
+
+            def emit(self, record):
+                exc = record.exc_info[1] if record.exc_info else None
+                _LISTENER_ERRORS.append(f'{type(exc).__name__}: {exc}' if exc is not None else record.getMessage())
+
+        lg.addHandler(H())
+        lg.propagate = False
+    lg.setLevel(logging.ERROR)
+    return _LISTENER_ERRORS
+
+
 class _Run:
     """One execution of a case on the real manager."""
 
@@ -68,8 +117,13 @@ class _Run:
         from vlib.xferrig import Rig
         self.loop = loop
         self.case = case
-        self.rig = Rig(loop, slots=case.get('slots', 3), teardown=case.get('teardown', 0))
+        self.rig = Rig(loop, slots=case.get('slots', 3), teardown=case.get('teardown', 0),
+                       aux_gates=bool(case.get('aux', False)), share_delay=case.get('share_delay', 0))
         self.mgr = self.rig.mgr
+        self.meta: dict = {}                # task -> how / on whose behalf it was created (inventory of library tasks)
+        self.op_k: dict = {}                # harness task delivering a user / peer action -> transfer index
+        self._log_seen = 0
+        loop.set_task_factory(self._task_factory)
         self.ev: list = []                  # events for the model, in order
         self.task_k: dict[str, int] = {}    # task name -> transfer index
         self.task_kind: dict[str, str] = {}
@@ -82,10 +136,116 @@ class _Run:
         self.snaps: list = []               # (event index, snapshot string, per-transfer fields, live map)
         self._wrap()
 
+    # -- inventory of tasks (whoever creates them) ------------------------------------------------------------------
+    def _task_factory(self, loop, coro, **kw):
+        """Every task of the loop is created here.  Noted per task: the creation site (innermost frame of the library on
+        the stack; None = created by the harness itself), the task that created it and what its coroutine was given
+        (a Transfer, a state object, a message naming a file, user name / remote path strings)."""
+        task = asyncio.Task(coro, loop=loop, **kw)
+        site, via = None, []
+        f = sys._getframe(1)
+        while f is not None:
+            fn = f.f_code.co_filename
+            if fn.endswith('c06.py') or os.sep + 'vlib' + os.sep in fn:
+                break                                                  # the harness's own tasks
+            if os.sep + 'aioslsk' + os.sep in fn:
+                site = f'{os.path.basename(fn)}:{f.f_code.co_name}'
+                break
+            via.append(f.f_code.co_name)
+            f = f.f_back
+        try:
+            parent = asyncio.current_task(loop)
+        except RuntimeError:
+            parent = None
+        refs: list = []
+        fr = getattr(coro, 'cr_frame', None)
+        if site is not None and fr is not None:
+            def note(v, depth=0):
+                if isinstance(v, str):
+                    refs.append(('str', v))
+                elif type(v).__name__ == 'Transfer':
+                    refs.append(('transfer', v))
+                elif type(getattr(v, 'transfer', None)).__name__ == 'Transfer':
+                    refs.append(('transfer', v.transfer))              # a state object / a bound state method's owner
+                elif type(getattr(getattr(v, '__self__', None), 'transfer', None)).__name__ == 'Transfer':
+                    refs.append(('transfer', v.__self__.transfer))
+                elif isinstance(getattr(v, 'filename', None), str):
+                    refs.append(('str', v.filename))                   # a protocol message naming a file
+                elif isinstance(v, (tuple, list)) and depth < 2:
+                    for y in v[:8]:
+                        note(y, depth + 1)
+                elif isinstance(v, dict) and depth < 2:
+                    for y in list(v.values())[:8]:
+                        note(y, depth + 1)
+            for name, v in list(fr.f_locals.items()):
+                if name != 'self':
+                    note(v)
+        self.meta[task] = {'site': site, 'via': via[:4], 'parent': parent, 'refs': refs,
+                           'code': getattr(getattr(coro, 'cr_code', None), 'co_name', None)}
+        return task
+
+    def listed(self, t) -> bool:
+        """`t` itself is in the manager's list (`in` compares by user / path / direction: an equal NEW transfer would do)"""
+        return any(x is t for x in self.mgr._transfers)
+
+    def owner_of(self, task, depth: int = 0) -> Optional[int]:
+        """index of the transfer a library task works for: the slot it was put in, what its coroutine was given, or the
+        task / the user or peer action that created it"""
+        name = task.get_name()
+        if name in self.task_k:
+            return self.task_k[name]
+        m = self.meta.get(task)
+        if m is None:
+            return None
+        if 'k' in m:
+            return m['k']
+        k = None
+        strs = {v for kind, v in m['refs'] if kind == 'str'}
+        for kind, v in m['refs']:
+            if kind == 'transfer':
+                k = self.rig.k_of(v)
+                if k is not None:
+                    break
+        if k is None and strs:
+            cands = [i for i, t in enumerate(self.rig.transfers) if t.remote_path in strs]
+            named = [i for i in cands if self.rig.transfers[i].username in strs]
+            cands = named or cands
+            if cands:
+                k = next((i for i in cands if self.listed(self.rig.transfers[i])), cands[-1])
+        if k is None and m['parent'] is not None and depth < 8:
+            par = m['parent']
+            if par in self.op_k:
+                k = self.op_k[par]
+            elif (self.meta.get(par) or {}).get('site') is not None:
+                k = self.owner_of(par, depth + 1)
+        m['k'] = k
+        return k
+
+    def negotiation_kind(self, task) -> Optional[str]:
+        """'Q' / 'T' when the task runs a remote-queue attempt / an initialisation, whatever its name and whoever made it"""
+        name = task.get_name()
+        if name in self.task_kind:
+            return self.task_kind[name]
+        if name.startswith('queue-remotely-'):
+            return 'Q'
+        if name.startswith('initialize-'):
+            return 'T'
+        coro = task.get_coro()
+        for _ in range(12):
+            code = getattr(getattr(coro, 'cr_code', None), 'co_name', None)
+            if code == '_queue_remotely':
+                return 'Q'
+            if code in ('_initialize_upload', '_initialize_download'):
+                return 'T'
+            coro = getattr(coro, 'cr_await', None)
+            if coro is None:
+                break
+        return None
+
     # -- instrumentation (from outside, nothing in the library is edited) ---------------------------------------
     def _note_new_tasks(self, before, reason):
         new = []
-        for t in list(self.mgr.transfers) + [x for x in self.rig.transfers if x not in self.mgr.transfers]:
+        for t in list(self.mgr.transfers) + [x for x in self.rig.transfers if not self.listed(x)]:
             b = before.get(id(t), (None, None))
             for slot, kind, old in (('_remotely_queue_task', 'Q', b[0]), ('_transfer_task', 'T', b[1])):
                 task = getattr(t, slot)
@@ -169,6 +329,12 @@ class _Run:
                         run.ev.append(('tend', tk.get_name(), 'transferring'))
                 if new.name == 'INITIALIZING':
                     run.initialized.add(asyncio.current_task().get_name())
+                if new.name == 'FAILED':
+                    # `state.fail()` called by the transfer's own task, which is not over yet (an upload that hit a
+                    # write error still has to tell the peer: PeerUploadFailed over a connection that may be slow)
+                    cur = asyncio.current_task().get_name()
+                    if run.task_k.get(cur) == run.rig.k_of(transfer):
+                        run.ev.append(('tend', cur, 'failing'))
                 if new.name == 'ABORTED':
                     k = run.rig.k_of(transfer)
                     if run.pending_call.get(k) == 'remove':
@@ -183,9 +349,20 @@ class _Run:
         t.state_listeners.append(self._listener)
 
     # -- ops ----------------------------------------------------------------------------------------------------------
+    async def deliver(self, message, connection):
+        """A message arrives: `MessageReceivedEvent` on the event bus, as the network emits it (the manager dispatches it to
+        its handler and the emission returns when the handler is through).  The bus logs an exception raised by a
+        listener and goes on: it is picked up from the log and raised here."""
+        from aioslsk.events import MessageReceivedEvent
+        sink = _listener_errors()
+        n = len(sink)
+        await self.rig.bus.emit(MessageReceivedEvent(message=message, connection=connection))
+        if len(sink) > n:
+            raise RuntimeError('exception in a message handler: ' + sink[-1])
+
     async def poke(self):
         from aioslsk.protocol.messages import AddUser
-        await self.mgr._on_add_user(AddUser.Response('nobody', exists=False), None)
+        await self.deliver(AddUser.Response('nobody', exists=False), None)
 
     async def _do_call(self, k: int, c: str):
         """abort / pause / remove of transfer k, from the first step to the return (events `call`, `resume` / `call-refused`)"""
@@ -193,7 +370,8 @@ class _Run:
         mgr, rig = self.mgr, self.rig
         t = rig.transfers[k]
         self.pending_call[k] = c
-        self.ev.append(('call', k, c, t.state.VALUE.name, len(self.live_tasks().get(k, [])), len(rig.log)))
+        self.ev.append(('call', k, c, t.state.VALUE.name, len(self.live_tasks().get(k, [])),
+                        len(rig.aux_pending.get(k) or []), len(rig.log)))
         try:
             if c == 'abort':
                 await mgr.abort(t)
@@ -213,7 +391,7 @@ class _Run:
         async def later(k, c, n):
             for _ in range(n):
                 await asyncio.sleep(0)
-            if k >= len(self.rig.transfers) or k in self.pending_call or self.rig.transfers[k] not in self.mgr.transfers:
+            if k >= len(self.rig.transfers) or k in self.pending_call or not self.listed(self.rig.transfers[k]):
                 return
             self.ev.append(('op', 'call'))
             await self._do_call(k, c)
@@ -227,6 +405,7 @@ class _Run:
         from vlib.xferrig import FakeConn
         mgr, rig = self.mgr, self.rig
         kind = body[0]
+        self.op_k.pop(asyncio.current_task(), None)
         if kind == 'wait':
             return
         if kind == 'poke':
@@ -238,8 +417,7 @@ class _Run:
             self.ev.append(('addDownload',))
             return
         if kind == 'addUpload':
-            await mgr._on_peer_transfer_queue(PeerTransferQueue.Request(f'f{len(rig.transfers)}'),
-                                              FakeConn(rig, _user(body[1])))
+            await self.deliver(PeerTransferQueue.Request(f'f{len(rig.transfers)}'), FakeConn(rig, _user(body[1])))
             self.adopt(mgr.transfers[-1])
             self.ev.append(('addUpload',))
             return
@@ -281,10 +459,71 @@ class _Run:
             await rig.bus.emit(ScanCompleteEvent(0, 0))
             self._then_calls(body[2] if len(body) > 2 else [])
             return
+        if kind == 'status':
+            # the server reports the peer offline (and online again): `remotely_queued` of every download from that peer
+            # is reset and a cycle requested (`_on_get_user_status`)
+            from aioslsk.protocol.messages import GetUserStatus
+            from aioslsk.user.model import UserStatus
+            u = _user(body[1])
+            ks = [i for i, x in enumerate(rig.transfers) if x.username == u and x.is_download() and self.listed(x)]
+            await self.deliver(GetUserStatus.Response(u, UserStatus.OFFLINE.value, False), None)
+            self.ev.append(('status', body[1], ks, len(rig.log)))
+            return
         k = body[1]
         if k >= len(rig.transfers):
             return
         t = rig.transfers[k]
+        if kind in ('upq', 'upreq', 'placereq', 'placereply', 'preq', 'peerfail', 'upfail'):
+            self.op_k[asyncio.current_task()] = k       # whatever the handler starts is started for transfer k
+        if kind == 'aux':
+            # the connection a pending PeerUploadFailed (... any message outside the negotiation) of transfer k waits
+            # for is established / fails
+            cls = rig.release_aux(k, 'ok' if body[2] == 'ok' else 'fail-conn')
+            if cls is not None:
+                self.ev.append(('aux', k, cls, body[2], len(rig.log)))
+            return
+        if kind == 'upq':
+            # the peer sends PeerTransferQueue for upload k (again): FAILED / COMPLETE -> QUEUED.  The handler looks the
+            # transfer up, asks the shares manager (suspends `share_delay` iterations) and only then decides; `then`
+            # (optional) = calls made n loop iterations later, i.e. while the handler is suspended
+            if not t.is_upload() or not self.listed(t):
+                return
+            self._then_calls(body[2] if len(body) > 2 else [])
+            before = t.state.VALUE.name
+            self.ev.append(('upq-start', k, before, len(rig.log)))
+            await self.deliver(PeerTransferQueue.Request(t.remote_path), FakeConn(rig, t.username))
+            listed = self.listed(t)
+            self.ev.append(('upq', k, before, t.state.VALUE.name, listed, len(rig.log)))
+            for x in mgr._transfers:                   # the file of a transfer that left the list meanwhile: a NEW upload
+                if rig.k_of(x) is None:
+                    self.adopt(x)
+                    self.ev.append(('addUpload',))
+            return
+        if kind == 'upreq':
+            # the peer sends PeerTransferRequest(direction=upload) for upload k, which is in the list: always refused
+            # (PeerTransferReply on the peer's connection), nothing changes
+            if not t.is_upload() or not self.listed(t):
+                return
+            self._then_calls(body[2] if len(body) > 2 else [])
+            await self.deliver(
+                PeerTransferRequest.Request(direction=0, ticket=7000 + len(self.ev), filename=t.remote_path),
+                FakeConn(rig, t.username))
+            self.ev.append(('upreq', k, len(rig.log)))
+            return
+        if kind == 'placereq':
+            if not t.is_upload() or not self.listed(t):
+                return
+            from aioslsk.protocol.messages import PeerPlaceInQueueRequest
+            await self.deliver(PeerPlaceInQueueRequest.Request(t.remote_path), FakeConn(rig, t.username))
+            self.ev.append(('placereq', k, len(rig.log)))
+            return
+        if kind == 'placereply':
+            if not t.is_download() or not self.listed(t):
+                return
+            from aioslsk.protocol.messages import PeerPlaceInQueueReply
+            await self.deliver(PeerPlaceInQueueReply.Request(t.remote_path, 3), FakeConn(rig, t.username))
+            self.ev.append(('placereply', k, len(rig.log)))
+            return
         if kind == 'net':
             _, _k, outcome, poke = body
             g = rig.current_gate(k)
@@ -301,10 +540,27 @@ class _Run:
                             'transferring': [('reply', 'allow'), ('conn', 'ok'), ('ticket', 'ok'), ('offset', 'ok'), ('send', 'ok')],
                             'complete': [('reply', 'allow'), ('conn', 'ok'), ('ticket', 'ok'), ('offset', 'ok'), ('file', 'ok'),
                                          ('send', 'ok')]}.get(outcome, [('send', 'fail-write')])
+                    if outcome == 'step':
+                        plan = [('send', 'ok')]            # delivered; the peer does not answer yet
                     for s_, o_ in plan:
                         g.set(s_, o_)
+                elif at in ('reply', 'conn', 'ticket', 'offset'):
+                    # the initialisation was let through step by step (`step`) and hangs at the peer's reply / the file
+                    # connection / the ticket / the offset: this step succeeds (`step`), everything up to UPLOADING
+                    # (`transferring`) or to the end (`complete`) does, or it fails (reply: refused -> FAILED, else -> QUEUED)
+                    order = ['reply', 'conn', 'ticket', 'offset']
+                    rest = order[order.index(at):]
+                    if outcome == 'step':
+                        g.set(at, 'allow' if at == 'reply' else 'ok')
+                    elif outcome in ('transferring', 'complete', 'ok'):
+                        if outcome == 'complete':
+                            g.set('file', 'ok')
+                        for s_ in reversed(rest):
+                            g.set(s_, 'allow' if s_ == 'reply' else 'ok')
+                    else:
+                        g.set(at, 'deny' if at == 'reply' else 'fail')
                 elif at == 'file':
-                    g.set('file', 'ok' if outcome in ('complete', 'ok') else 'fail')
+                    g.set('file', 'ok' if outcome in ('complete', 'ok', 'step') else 'fail')
             elif akind == 'dl-init':
                 o = {'ok': 'transferring', 'fail-conn': 'incomplete', 'fail-write': 'toQueue'}.get(outcome, outcome)
                 if o not in ('toQueue', 'timeout', 'transferring', 'incomplete', 'complete'):
@@ -331,12 +587,12 @@ class _Run:
                 await self.poke()
             return
         if kind == 'preq':
-            if not t.is_download() or t not in mgr.transfers:
+            if not t.is_download() or not self.listed(t):
                 return
             before = {id(x): (x._remotely_queue_task, x._transfer_task) for x in mgr.transfers}
             ticket = 9000 + len(self.ev)
             rig.dl_ticket[ticket] = k
-            await mgr._on_peer_transfer_request(
+            await self.deliver(
                 PeerTransferRequest.Request(direction=1, ticket=ticket, filename=t.remote_path, filesize=10),
                 FakeConn(rig, t.username))
             new = self._note_new_tasks(before, 'preq')
@@ -347,23 +603,23 @@ class _Run:
         if kind == 'peerfail':
             # a legitimate peer message.  While a call on k holds the state lock the handler's `state.fail()` waits for
             # it (and then dispatches on the state the call left, C03); the event is logged when the handler is through
-            if not t.is_download() or t not in mgr.transfers:
+            if not t.is_download() or not self.listed(t):
                 return
             from aioslsk.protocol.messages import PeerTransferQueueFailed
             before = t.state.VALUE.name
-            await mgr._on_peer_transfer_queue_failed(
+            await self.deliver(
                 PeerTransferQueueFailed.Request(filename=t.remote_path, reason='File not shared.'), FakeConn(rig, t.username))
             self.ev.append(('peerfail', k, before, t.state.VALUE.name, len(rig.log)))
             return
         if kind == 'upfail':
-            if not t.is_download() or t not in mgr.transfers:
+            if not t.is_download() or not self.listed(t):
                 return
             from aioslsk.protocol.messages import PeerUploadFailed
-            await mgr._on_peer_upload_failed(PeerUploadFailed.Request(filename=t.remote_path), FakeConn(rig, t.username))
+            await self.deliver(PeerUploadFailed.Request(filename=t.remote_path), FakeConn(rig, t.username))
             self.ev.append(('upfail', k, len(rig.log)))
             return
         if kind == 'requeue':
-            if t not in mgr.transfers or t.state.VALUE.name not in ('ABORTED', 'PAUSED', 'COMPLETE', 'INCOMPLETE', 'FAILED'):
+            if not self.listed(t) or t.state.VALUE.name not in ('ABORTED', 'PAUSED', 'COMPLETE', 'INCOMPLETE', 'FAILED'):
                 return
             if k in self.pending_call:
                 return
@@ -374,7 +630,7 @@ class _Run:
         if kind == 'call':
             _, _k, c, poke_after = body[:4]
             during = body[4] if len(body) > 4 else []
-            if k in self.pending_call or t not in mgr.transfers:
+            if k in self.pending_call or not self.listed(t):
                 return
 
             do_call = lambda: self._do_call(k, c)
@@ -389,6 +645,9 @@ class _Run:
                     await asyncio.sleep(0)
                 if what == 'poke':
                     await self.poke()
+                elif what == 'status':
+                    self.ev.append(('op', what))
+                    await self.perform([what, int(t.username[4:])])
                 else:
                     self.ev.append(('op', what))
                     await self.perform([what, k])
@@ -403,40 +662,88 @@ class _Run:
 
     # -- observation --------------------------------------------------------------------------------------------------
     def live_tasks(self) -> dict:
-        """transfer index -> list of (name, kind, in_slot) of library transfer tasks that are not done"""
+        """transfer index -> list of (name, kind, in_slot) of remote-queue / initialisation tasks that are not done
+        (recognised by name, by slot or by the coroutine they run)"""
         res: dict = {}
         for task in asyncio.all_tasks(self.loop):
-            name = task.get_name()
-            if task.done() or not (name.startswith('queue-remotely-') or name.startswith('initialize-')):
+            if task.done():
                 continue
-            if name not in self.task_k:
-                coro = task.get_coro()
-                fr = getattr(coro, 'cr_frame', None)
-                tr = fr.f_locals.get('transfer') if fr is not None else None
-                k = self.rig.k_of(tr) if tr is not None else None
-                kind = 'Q' if name.startswith('queue-remotely-') else 'T'
+            kind = self.negotiation_kind(task)
+            if kind is None:
+                continue
+            name = task.get_name()
+            if name in self.task_k:
+                k = self.task_k[name]
             else:
-                k, kind = self.task_k[name], self.task_kind[name]
+                k = self.owner_of(task)
+                if k is None:
+                    coro = task.get_coro()
+                    fr = getattr(coro, 'cr_frame', None)
+                    tr = fr.f_locals.get('transfer') if fr is not None else None
+                    k = self.rig.k_of(tr) if tr is not None else None
             t = self.rig.transfers[k] if k is not None else None
             slot = None if t is None else (t._remotely_queue_task if kind == 'Q' else t._transfer_task)
             res.setdefault(k, []).append((name, kind, slot is task))
         return res
 
+    def other_tasks(self) -> dict:
+        """transfer index -> list of (name, creation site, reachable) of every OTHER live task the library created on
+        behalf of that transfer — work outside the two task slots; `reachable` = one of the transfer's slots holds it.
+        The manager's own periodic jobs work for no transfer in particular."""
+        res: dict = {}
+        jobs = {getattr(self.mgr._management_task, '_task', None), getattr(self.mgr._progress_reporting_task, '_task', None)}
+        for task in asyncio.all_tasks(self.loop):
+            m = self.meta.get(task)
+            if task.done() or m is None or m['site'] is None or task in jobs:
+                continue
+            if self.negotiation_kind(task) is not None:
+                continue
+            k = self.owner_of(task)
+            if k is None:
+                continue
+            t = self.rig.transfers[k]
+            res.setdefault(k, []).append((task.get_name(), m['site'], task is t._remotely_queue_task or task is t._transfer_task))
+        return res
+
+    def _attribute_log(self):
+        """network activity that does not name a file (a file connection, a message without a file name) is attributed to
+        the transfer the sending task works for"""
+        log = self.rig.log
+        by_name = None
+        for i in range(self._log_seen, len(log)):
+            x = log[i]
+            if x[0] in ('connect', 'frame', 'fileconn') and x[1] is None:
+                sender = x[4] if x[0] != 'fileconn' and len(x) > 4 else (x[3] if x[0] == 'fileconn' and len(x) > 3 else None)
+                if sender is None:
+                    continue
+                if by_name is None:
+                    by_name = {t.get_name(): t for t in self.meta}
+                task = by_name.get(sender)
+                if task is None or (self.meta[task]['site'] is None and task.get_name() not in self.task_k):
+                    continue                               # sent from a harness task: the handler of a scripted message
+                k = self.owner_of(task)
+                if k is not None:
+                    log[i] = (x[0], k) + tuple(x[2:])
+        self._log_seen = len(log)
+
     def snapshot(self):
+        self._attribute_log()
         live = self.live_tasks()
         ents = []
         for k, t in enumerate(self.rig.transfers):
             def sl(task):
                 return 'N' if task is None else ('D' if task.done() else 'L')
             lock = {'abort': 'A', 'pause': 'P', 'remove': 'R'}.get(self.pending_call.get(k), '-')
-            removed = 0 if t in self.mgr.transfers else 1
+            removed = 0 if self.listed(t) else 1
             retry = int(t.is_download() and t.state.VALUE.name == 'FAILED' and t.fail_reason is None)
             ents.append(f"{k}:{t.state.VALUE.name}:r{retry}:rq{int(bool(t.remotely_queued))}:a{t.queue_attempts}:"
                         f"Q{sl(t._remotely_queue_task)}:T{sl(t._transfer_task)}:{lock}:{removed}:"
                         f"q{int(bool(self.quiet.get(k)))}:live{len(live.get(k, []))}")
         self.snaps.append({'at': len(self.ev), 'log_at': len(self.rig.log), 'snap': ' '.join(ents),
                            'fields': [_fields(t) for t in self.rig.transfers],
-                           'live': {str(k): v for k, v in live.items()}})
+                           'live': {str(k): v for k, v in live.items()},
+                           'other': {str(k): v for k, v in self.other_tasks().items()},
+                           'aux': {str(k): [c for _a, c in v] for k, v in self.rig.aux_pending.items() if v}})
 
 
 WALL = 4.0            # per-case guard in CPU seconds (a healthy case takes a few ms); wall-clock backstop at 10x
@@ -682,6 +989,16 @@ def _script(impl: dict) -> tuple[list[str], list[Optional[str]], list[str]]:
         elif tag == 'upfail':
             lines.append(f'upfail {e[1]}')
             want.append(None)
+        elif tag == 'status':
+            for k in e[2]:
+                lines.append(f'upfail {k}')       # the same reset of `remotely_queued`, for every download of the peer
+                want.append(None)
+        elif tag == 'upq-start':
+            lines.append(f'upqs {e[1]}')
+            want.append(None)
+        elif tag == 'upq':
+            lines.append(f'upqe {e[1]}')
+            want.append(None)
         elif tag == 'call':
             lines.append(f'call {e[1]} {e[2]}')
             want.append(None)
@@ -773,6 +1090,15 @@ def _monitor(case: dict, impl: dict) -> list[Violation]:
             if x[0] in ('shares', 'shares-done') and k in x[2] and c == 'pause':
                 end = j
                 break
+            # PeerTransferQueue for an upload that is (still) in the list and FAILED / COMPLETE: the peer re-queues it.
+            # On a transfer that left the list the handler has nothing to re-queue: the window goes on.
+            if x[0] == 'upq' and x[1] == k and x[2] in ('FAILED', 'COMPLETE') and x[3] == 'QUEUED' and x[4]:
+                end = j
+                break
+            if x[0] == 'status' and k in x[2]:
+                f0 = list(f0)
+                f0[1] = False
+                base.append((j, f0))
             # Other peer messages for k are not a re-queue: the window goes on, with the direct effect of the message
             # (outside the property) taken into the expected fields: PeerTransferQueueFailed makes a PAUSED download
             # FAILED with the peer's reason, PeerUploadFailed resets remotely_queued, a refused transfer request changes
@@ -815,6 +1141,8 @@ def _monitor(case: dict, impl: dict) -> list[Violation]:
             if x[0] in ('connect', 'frame', 'fileconn') and x[1] == k:
                 if x[0] == 'frame' and x[2] is None and x[3] == 'PeerTransferReply':
                     continue
+                if x[0] == 'frame' and x[2] is None and x[3] in REPLIES and len(x) > 5 and x[5] == 'peer-conn':
+                    continue        # the handler's answer on the connection the peer's own message came in on
                 add('C06-message-after-return',
                     f'{x[0]} {x[3] if len(x) > 3 else ""} on behalf of transfer {k} after {c} returned', {'log': x},
                     'no message, no connection')
@@ -831,6 +1159,13 @@ def _monitor(case: dict, impl: dict) -> list[Violation]:
                     add('C06-live-task-after-return', f'transfer {k} still has live task(s) '
                         f'{[x[0] for x in s["live"][str(k)]]} after {c} returned', {'at_event': s['at']}, 'none')
                     break
+                if s.get('other', {}).get(str(k)):
+                    add('C06-work-outside-slots-after-return', f'after {c} returned the library still has task(s) in '
+                        f'flight on behalf of transfer {k} that are not its remote-queue / initialisation task: '
+                        f'{[(x[0], x[1]) for x in s["other"][str(k)]]}',
+                        {'at_event': s['at'], 'pending_messages': s.get('aux', {}).get(str(k))},
+                        'cancelling the transfer cancels all of it')
+                    break
     if impl.get('loop_exceptions'):
         add('C06-internal-error', 'exception reported to the loop exception handler', impl['loop_exceptions'][:2])
     return vs
@@ -846,9 +1181,10 @@ def _gen_case(rng: random.Random, max_ops: int = 12) -> dict:
     ops: list[list] = []
     npeers = rng.randint(1, 2)
     per_peer = rng.randint(1, 3)
-    dirs = []
+    dirs, users = [], []
     for p in range(npeers):
         for _ in range(per_peer):
+            users.append(p)
             if profile == 'uploads' or (profile == 'mixed' and rng.random() < 0.3):
                 ops.append(['addUpload', p, 0])
                 dirs.append('U')
@@ -898,11 +1234,18 @@ def _gen_case(rng: random.Random, max_ops: int = 12) -> dict:
                 out = rng.choice(['ok', 'ok', 'ok', 'fail-conn', 'fail-conn', 'fail-write', 'incomplete', 'incomplete',
                                   'transferring', 'complete', 'timeout'])
             else:
-                out = rng.choice(['toQueue', 'toQueue', 'fail', 'transferring', 'complete'])
+                out = rng.choice(['toQueue', 'toQueue', 'fail', 'transferring', 'complete', 'step', 'step'])
             poke = rng.random() < (0.7 if profile == 'callback-race' else 0.25)
             ops.append(['net', k, out, poke, dt])
         elif r < 0.52 and dirs[k] == 'D':
             ops.append(['preq', k, dt])
+        elif r < 0.56 and dirs[k] == 'U':
+            ops.append([rng.choice(['upq', 'upq', 'upreq', 'placereq']), k, dt])
+        elif r < 0.535 and dirs[k] == 'D':
+            if rng.random() < 0.6:
+                ops.append(['status', users[k], dt])
+            else:
+                ops.append(['placereply', k, dt])
         elif r < (0.66 if profile == 'peer-refuses' else 0.56) and dirs[k] == 'D':
             ops.append(['peerfail', k, dt])
             if profile == 'peer-refuses' and rng.random() < 0.6:
@@ -924,15 +1267,28 @@ def _gen_case(rng: random.Random, max_ops: int = 12) -> dict:
 
 
 def _during(rng: random.Random, is_download: bool, p_preq: float = 0.5, hi: int = 6) -> list:
-    """peer events / cycle requests delivered 0..hi loop iterations after a call started"""
+    """peer events / cycle requests delivered 0..hi loop iterations after a call started: every message the transfer
+    manager has a handler for (downloads: PeerTransferRequest, PeerTransferQueueFailed, PeerUploadFailed,
+    PeerPlaceInQueueReply, the peer's status; uploads: PeerTransferQueue, PeerTransferRequest, PeerPlaceInQueueRequest)"""
     evs = []
     if is_download:
         if rng.random() < p_preq:
             evs.append(['preq', rng.randrange(0, hi)])
         if rng.random() < 0.15:
             evs.append(['peerfail', rng.randrange(0, hi)])
-        if rng.random() < 0.15:
+        if rng.random() < 0.25:
             evs.append(['upfail', rng.randrange(0, hi)])
+        if rng.random() < 0.08:
+            evs.append(['status', rng.randrange(0, hi)])
+        if rng.random() < 0.05:
+            evs.append(['placereply', rng.randrange(0, hi)])
+    else:
+        if rng.random() < 0.5:
+            evs.append(['upq', rng.randrange(0, hi)])
+        if rng.random() < 0.15:
+            evs.append(['upreq', rng.randrange(0, hi)])
+        if rng.random() < 0.1:
+            evs.append(['placereq', rng.randrange(0, hi)])
     if rng.random() < 0.35:
         evs.append(['poke', rng.randrange(0, hi)])
     return evs
@@ -945,7 +1301,7 @@ def _gen_window_case(rng: random.Random, max_ops: int = 8) -> dict:
     would create a task (QUEUED, INCOMPLETE with / without a live retry, FAILED without a reason that is being retried,
     both slots occupied); cancelled network steps take 0..3 iterations to unwind, executor calls 0..2."""
     profile = rng.choice(['peer-during-call', 'peer-during-call', 'peer-during-call', 'failed-retry', 'failed-retry',
-                          'shares', 'shares'])
+                          'shares', 'shares', 'upload-notify', 'upload-notify', 'handler-window', 'handler-window'])
     DT = [0, 0.05, 0.05, 0.1, 0.3, 0.3]
     case = {'kind': profile, 'slots': rng.choice([1, 2, 3]), 'teardown': rng.choice([0, 0, 1, 2, 3]),
             'exec_delay': rng.choice([0, 0, 0, 1, 2])}
@@ -1022,6 +1378,98 @@ def _gen_window_case(rng: random.Random, max_ops: int = 8) -> dict:
             elif r < 0.8:
                 ops.append(['poke', rng.choice(DT)])
             elif r < 0.9:
+                ops.append(['requeue', k, rng.choice(DT)])
+            else:
+                ops.append(['wait', rng.choice([0.3, 31.0])])
+    elif profile == 'upload-notify':
+        # An upload gets through to UPLOADING and hits a write error: FAILED, while its task still has to deliver
+        # PeerUploadFailed over a connection that is slow (`aux`: every such message is a gate).  Then remove (the only
+        # call FAILED accepts), or the peer queues the file again and the user aborts / pauses / removes; the connection
+        # gets through (or fails) only afterwards.
+        case['aux'] = True
+        case['share_delay'] = rng.choice([0, 0, 1, 2])
+        n = rng.randint(1, 2)
+        ops += [['addUpload', i, 0] for i in range(n)]                 # one peer each: one upload per peer at a time
+        k0 = rng.randrange(n)
+        ops += [['net', k0, 'transferring', False, 0.3], ['net', k0, 'fail', rng.random() < 0.3, 0.3]]
+        r = rng.random()
+        if r < 0.45:
+            ops.append(['call', k0, 'remove', rng.choice([None, 0, 1, 2]), _during(rng, False), rng.choice([0.05, 0.3])])
+        elif r < 0.9:
+            ops.append(['upq', k0, [], rng.choice([0.05, 0.3])])
+            if rng.random() < 0.6:
+                ops.append(['poke', rng.choice(DT)])
+            ops.append(['call', k0, rng.choice(['abort', 'pause', 'remove']), rng.choice([None, 0, 1, 2]),
+                        _during(rng, False), rng.choice([0.05, 0.3])])
+        else:
+            ops.append(['aux', k0, rng.choice(['ok', 'fail']), 0.3])
+            ops.append(['call', k0, 'remove', None, _during(rng, False), 0.3])
+        ops.append(['aux', k0, rng.choice(['ok', 'ok', 'fail']), rng.choice(DT)])
+        ops.append(['net', k0, rng.choice(['transferring', 'toQueue', 'complete']), False, rng.choice(DT)])
+        for _ in range(rng.randint(0, max_ops - 4)):
+            k = rng.randrange(n)
+            r = rng.random()
+            if r < 0.3:
+                ops.append(['call', k, rng.choice(['abort', 'pause', 'remove']), rng.choice([None, 0, 1, 2, 3]),
+                            _during(rng, False), rng.choice(DT)])
+            elif r < 0.5:
+                ops.append(['net', k, rng.choice(['transferring', 'fail', 'toQueue', 'complete', 'step', 'step']),
+                            rng.random() < 0.3, rng.choice(DT)])
+            elif r < 0.62:
+                ops.append(['upq', k, [], rng.choice(DT)])
+            elif r < 0.72:
+                ops.append(['aux', k, rng.choice(['ok', 'fail']), rng.choice(DT)])
+            elif r < 0.8:
+                ops.append(['poke', rng.choice(DT)])
+            elif r < 0.88:
+                ops.append(['requeue', k, rng.choice(DT)])
+            else:
+                ops.append(['wait', rng.choice([0.3, 31.0])])
+    elif profile == 'handler-window':
+        # A peer message handler that looks at the transfer and then WAITS (for the shares manager: `share_delay`
+        # iterations; for the state lock) while the user calls abort / pause / remove: the peer's message arrives first,
+        # the call is made 0..3 iterations later.  Uploads from every state the handlers distinguish.
+        case['share_delay'] = rng.choice([1, 2, 3])
+        case['aux'] = rng.random() < 0.5
+        n = rng.randint(1, 2)
+        ops += [['addUpload', i, 0] for i in range(n)]
+        k0 = rng.randrange(n)
+        setup = rng.choice(['failed', 'failed', 'complete', 'write-error', 'queued', 'initializing', 'uploading', 'aborted'])
+        if setup == 'failed':
+            ops.append(['net', k0, 'fail', False, 0.3])                      # the peer refuses the upload
+        elif setup == 'complete':
+            ops.append(['net', k0, 'complete', False, 0.3])
+        elif setup == 'write-error':
+            ops += [['net', k0, 'transferring', False, 0.3], ['net', k0, 'fail', False, 0.3]]
+            if rng.random() < 0.5:
+                ops.append(['aux', k0, rng.choice(['ok', 'fail']), 0.3])
+        elif setup == 'queued':
+            ops.append(['net', k0, 'toQueue', False, 0.3])
+        elif setup == 'uploading':
+            ops.append(['net', k0, 'transferring', False, 0.3])
+        elif setup == 'initializing':
+            ops += [['net', k0, 'step', False, 0.3] for _ in range(rng.randint(0, 4))]
+        elif setup == 'aborted':
+            ops.append(['call', k0, 'abort', None, [], 0.3])
+        c = rng.choice(['remove', 'remove', 'remove', 'abort', 'pause'])
+        ops.append([rng.choice(['upq', 'upq', 'upq', 'upreq']), k0, [[k0, c, rng.randrange(0, 4)]], rng.choice([0.05, 0.3])])
+        ops.append(['net', k0, rng.choice(['transferring', 'toQueue', 'complete']), False, rng.choice(DT)])
+        for _ in range(rng.randint(0, max_ops - 4)):
+            k = rng.randrange(n)
+            r = rng.random()
+            if r < 0.3:
+                ops.append([rng.choice(['upq', 'upq', 'upreq', 'placereq']), k,
+                            [[k, rng.choice(['remove', 'abort', 'pause']), rng.randrange(0, 4)]] if rng.random() < 0.6 else [],
+                            rng.choice(DT)])
+            elif r < 0.5:
+                ops.append(['call', k, rng.choice(['abort', 'pause', 'remove']), rng.choice([None, 0, 1, 2]),
+                            _during(rng, False), rng.choice(DT)])
+            elif r < 0.7:
+                ops.append(['net', k, rng.choice(['transferring', 'fail', 'toQueue', 'complete', 'step', 'step']), False,
+                            rng.choice(DT)])
+            elif r < 0.78:
+                ops.append(['aux', k, rng.choice(['ok', 'fail']), rng.choice(DT)])
+            elif r < 0.86:
                 ops.append(['requeue', k, rng.choice(DT)])
             else:
                 ops.append(['wait', rng.choice([0.3, 31.0])])
@@ -1179,7 +1627,63 @@ DIRECTED = [
     # (fixes/C06-shares-requeue-removed.md)
     {'kind': 'directed-unblock-requeue-vs-remove', 'slots': 2, 'model': False, 'ops': [
         ['addUpload', 0, 0], ['block', 0, [], 0.3], ['unblock', 0, [[0, 'remove', 0]], 0.3], ['wait', 1.0]]},
+    # --- round 4 --------------------------------------------------------------------------------------------------------
+    # work on behalf of a transfer outside / after its negotiation: an upload hits a write error (FAILED) and still has to
+    # deliver PeerUploadFailed over a slow connection; remove while that is pending, the connection gets through later
+    {'kind': 'directed-upload-write-error-remove', 'slots': 2, 'aux': True, 'ops': [
+        ['addUpload', 0, 0], ['net', 0, 'transferring', False, 0.3], ['net', 0, 'fail', False, 0.3],
+        ['call', 0, 'remove', None, [], 0.3], ['aux', 0, 'ok', 0.3], ['wait', 1.0]]},
+    # ... the peer queues the file again (FAILED -> QUEUED) while the delivery is pending, a cycle, the user aborts / pauses
+    {'kind': 'directed-upload-write-error-requeued-abort', 'slots': 2, 'aux': True, 'ops': [
+        ['addUpload', 0, 0], ['net', 0, 'transferring', False, 0.3], ['net', 0, 'fail', False, 0.3], ['upq', 0, [], 0.3],
+        ['poke', 0.3], ['call', 0, 'abort', None, [], 0.3], ['aux', 0, 'ok', 0.3], ['net', 0, 'transferring', False, 0.3],
+        ['wait', 1.0]]},
+    {'kind': 'directed-upload-write-error-requeued-pause', 'slots': 2, 'aux': True, 'teardown': 2, 'ops': [
+        ['addUpload', 0, 0], ['net', 0, 'transferring', False, 0.3], ['net', 0, 'fail', True, 0.3], ['upq', 0, [], 0.05],
+        ['call', 0, 'pause', 1, [['upq', 1]], 0.3], ['aux', 0, 'ok', 0.3], ['net', 0, 'transferring', False, 0.3],
+        ['wait', 1.0]]},
+    # a handler that decides on a state it read BEFORE it waits: PeerUploadFailed while pause / abort wait for the retry of
+    # an INCOMPLETE download they cancelled (slow tear-down, removal of the partial file in the executor)
+    {'kind': 'directed-upfail-during-pause-incomplete-retry', 'slots': 2, 'teardown': 2, 'ops': [
+        ['addDownload', 0, 0], ['net', 0, 'ok', False, 0.3], ['preq', 0, 0.3], ['net', 0, 'incomplete', False, 0.3],
+        ['call', 0, 'pause', None, [['upfail', 1]], 0.3], ['net', 0, 'ok', True, 0.3], ['wait', 1.0]]},
+    {'kind': 'directed-upfail-during-abort-incomplete-retry', 'slots': 2, 'teardown': 1, 'exec_delay': 2, 'ops': [
+        ['addDownload', 0, 0], ['net', 0, 'ok', False, 0.3], ['preq', 0, 0.3], ['net', 0, 'incomplete', False, 0.3],
+        ['call', 0, 'abort', None, [['upfail', 2], ['status', 1]], 0.3], ['net', 0, 'ok', True, 0.3], ['wait', 1.0]]},
+    # the peer's PeerTransferQueue for a FAILED / COMPLETE upload: the handler finds the transfer and asks the shares
+    # manager (suspends); the user removes the upload meanwhile; the handler goes on after remove returned
+    # (fixes/C06-peer-queue-removed.md)
+    {'kind': 'directed-peer-queue-vs-remove-failed', 'slots': 2, 'share_delay': 2, 'ops': [
+        ['addUpload', 0, 0], ['net', 0, 'fail', False, 0.3], ['upq', 0, [[0, 'remove', 1]], 0.3], ['wait', 1.0]]},
+    {'kind': 'directed-peer-queue-vs-remove-complete', 'slots': 2, 'share_delay': 3, 'ops': [
+        ['addUpload', 0, 0], ['net', 0, 'complete', False, 0.3], ['upq', 0, [[0, 'remove', 0]], 0.3],
+        ['net', 1, 'transferring', False, 0.3], ['wait', 1.0]]},
+    # abort / pause at the inner points of an upload's negotiation: request delivered and the peer has not answered yet;
+    # answered, the file connection attempt hangs
+    {'kind': 'directed-upload-abort-at-reply', 'slots': 2, 'ops': [
+        ['addUpload', 0, 0], ['net', 0, 'step', False, 0.3], ['call', 0, 'abort', None, [], 0.3],
+        ['net', 0, 'transferring', False, 0.3], ['wait', 1.0]]},
+    {'kind': 'directed-upload-pause-at-file-connection', 'slots': 2, 'teardown': 1, 'ops': [
+        ['addUpload', 0, 0], ['net', 0, 'step', False, 0.3], ['net', 0, 'step', False, 0.3],
+        ['call', 0, 'pause', 1, [['upq', 0]], 0.3], ['net', 0, 'transferring', False, 0.3], ['wait', 1.0]]},
+    # the same handler for an upload the user aborts / pauses while it is suspended
+    {'kind': 'directed-peer-queue-vs-abort-queued', 'slots': 2, 'share_delay': 2, 'teardown': 1, 'ops': [
+        ['addUpload', 0, 0], ['upq', 0, [[0, 'abort', 1]], 0.3], ['upreq', 0, [[0, 'remove', 1]], 0.3],
+        ['net', 0, 'transferring', False, 0.3], ['wait', 1.0]]},
 ]
+
+
+FLOORS = (
+    'download-or-upload-transferring', 'download-or-upload-incomplete', 'download-or-upload-complete',
+    'call-on-INCOMPLETE-with-live-retry', 'call-with-both-slots-occupied', 'cycle-while-call-waits',
+    'cycle-between-task-end-and-callback', 'peer-request-while-call-waits-starts-initialisation',
+    'late-initialisation-refused', 'late-initialisation-cancelled-by-remove', 'failed-without-reason-download',
+    'upload-failed-message-while-call-waits', 'upload-failed-message-while-call-waits-for-retry-of-INCOMPLETE',
+    'upload-FAILED-with-failure-message-pending', 'remove-of-FAILED-upload-while-its-failure-message-is-pending',
+    'call-while-upload-failed-message-pending', 'peer-requeues-upload',
+    'peer-queue-handler-suspended-across-returned-call', 'peer-queue-handler-resumed-after-remove-returned',
+    'shares-or-block-change-after-returned-call-on-upload',
+)
 
 
 def _features(case, impl) -> set:
@@ -1251,6 +1755,48 @@ def _features(case, impl) -> set:
             feats.add('shares-or-block-change-after-returned-call-on-upload')
     if any(e[0] == 'addFailed' for e in ev):
         feats.add('failed-without-reason-download')
+    # round 4: work outside the negotiation; handlers suspended across a call
+    pend2: dict = {}
+    susp: dict = {}
+    for e in ev:
+        if e[0] == 'end-of-window':
+            break
+        if e[0] == 'call':
+            pend2[e[1]] = e
+            if e[5] > 0:
+                feats.add('call-while-upload-failed-message-pending')
+                if e[2] == 'remove' and e[3] == 'FAILED':
+                    feats.add('remove-of-FAILED-upload-while-its-failure-message-is-pending')
+            for k2 in susp:
+                if k2 == e[1]:
+                    susp[k2] = 'called'
+        elif e[0] in ('resume', 'call-refused'):
+            pend2.pop(e[1], None)
+            if e[0] == 'resume' and susp.get(e[1]) == 'called':
+                susp[e[1]] = 'returned'
+        elif e[0] == 'upq-start':
+            susp[e[1]] = 'open'
+            if e[1] in pend2:
+                feats.add('upload-peer-message-while-call-waits')
+        elif e[0] == 'upq':
+            if susp.pop(e[1], None) == 'returned':
+                feats.add('peer-queue-handler-suspended-across-returned-call')
+                if not e[4]:
+                    feats.add('peer-queue-handler-resumed-after-remove-returned')
+            if e[2] in ('FAILED', 'COMPLETE') and e[3] == 'QUEUED' and e[4]:
+                feats.add('peer-requeues-upload')
+        elif e[0] in ('upreq', 'placereq') and e[1] in pend2:
+            feats.add('upload-peer-message-while-call-waits')
+        elif e[0] == 'upfail' and e[1] in pend2 and pend2[e[1]][3] == 'INCOMPLETE' and pend2[e[1]][4] > 0:
+            feats.add('upload-failed-message-while-call-waits-for-retry-of-INCOMPLETE')
+        elif e[0] == 'status' and any(k2 in pend2 for k2 in e[2]):
+            feats.add('peer-status-while-call-waits')
+        elif e[0] == 'aux':
+            feats.add('upload-failed-message-' + ('delivered' if e[3] == 'ok' else 'undeliverable'))
+        elif e[0] == 'tend' and e[2] == 'failing':
+            feats.add('transfer-failed-by-its-own-task')
+    if any(s.get('aux') for s in impl['snaps']):
+        feats.add('upload-FAILED-with-failure-message-pending')
     # a cycle between a task end and its callback
     ended = set()
     for e in ev:
@@ -1276,7 +1822,7 @@ class C06(Property):
     id = 'C06'
     props_module = 'AioslskVerif.Props.C06'
     driver_module = 'AioslskVerif.Driver.C06'
-    rule = ('family A (as before): 1..2 peers x 1..3 transfers per peer (downloads, uploads), then 3..12 ops (thorough ..20) '
+    rule = ('family A: 1..2 peers x 1..3 transfers per peer (downloads, uploads), then 3..12 ops (thorough ..20) '
             'out of: cycle request, the pending network step of a transfer task succeeds / fails (optionally with a cycle '
             'request in the same step), peer transfer request, abort / pause / remove as its own task with a cycle request '
             '0..4 loop iterations later, re-queue, waits up to 61 s; delays from {0, .02, .05, .1, .3, 5} s. Family B (windows '
@@ -1287,10 +1833,21 @@ class C06(Property):
             'iterations), both slots occupied, FAILED-without-reason downloads being retried (attempt hanging / failed / '
             'delivered); a cancelled network step takes 0..3 iterations to unwind. Family C (monitor-only): uploads, a call, '
             'then block / unblock of the peer and unshare / reshare of the file through the real manage_shares_changed. '
-            'Observation window 120 virtual seconds; derived from VERIF_SEED. Non-trivial: a call returned AND (a cycle ran '
-            'while a task was hanging, or while the call was waiting, or between a task end and its done-callback, or a peer '
-            'message for the transfer arrived while the call was waiting, or the block list / shares changed after the call '
-            'on an upload returned); distinct = distinct canonical case')
+            'Family D (work outside the negotiation): uploads that get through to UPLOADING and hit a write error - FAILED '
+            'while their task still delivers PeerUploadFailed over a slow connection (every message naming the file is a '
+            'gate) - then remove, or PeerTransferQueue from the peer (FAILED -> QUEUED) and abort / pause / remove, the '
+            'connection getting through or failing only afterwards. Family E (suspended handlers): PeerTransferQueue / '
+            'PeerTransferRequest for an upload in FAILED / COMPLETE / QUEUED / INITIALIZING / UPLOADING / ABORTED state whose '
+            'handler waits 1..3 iterations for the shares manager, abort / pause / remove called 0..3 iterations into that. '
+            'In families B, D, E a call gets every message the manager has a handler for (downloads: + PeerPlaceInQueueReply, '
+            'the peer going offline; uploads: PeerTransferQueue, PeerTransferRequest, PeerPlaceInQueueRequest) 0..5 '
+            'iterations after it started. Observation window 120 virtual seconds; derived from VERIF_SEED. Non-trivial: a '
+            'call returned AND (a cycle ran while a task was hanging, or while the call was waiting, or between a task end '
+            'and its done-callback, or a peer / server message for the transfer arrived while the call was waiting, or a '
+            'handler was suspended across the call, or the call was made while a failure message of the upload was pending, '
+            'or the block list / shares changed after the call on an upload returned); distinct = distinct canonical case. '
+            'Coverage floors: 20 situations the directed cases reach on every run must be seen, otherwise the '
+            'correspondence is reported as not checking')
     assumptions = [
         'the network is a scripted stub at the level of send_peer_messages / create_peer_connection / response futures: a '
         '"connection attempt" is the call, a "frame" is its successful return (real sockets / FakeNet are not used here)',
@@ -1301,7 +1858,14 @@ class C06(Property):
         'a change of the block list / the shares is a user action on the uploads it covers, except for an upload the user '
         'aborted or removed: blocking + unblocking (unsharing + resharing) must not bring such an upload back',
         'TransferManager.queue is only called from the states its docstring lists; no two calls overlap on one transfer; '
-        'user status changes (GetUserStatus: reset of remotely_queued for every download of the peer) are not generated',
+        'a user status change is generated as the GetUserStatus message only (reset of remotely_queued for every download '
+        'of the peer, a direct effect like PeerUploadFailed); the user object the scheduler looks at stays UNKNOWN (C05)',
+        'PeerTransferQueue for an upload that is in the list and FAILED / COMPLETE is the peer legitimately re-queuing it '
+        '(ends the window); for a transfer that left the list the handler has nothing to re-queue (the file is then queued '
+        'as a NEW transfer, which is not the removed object); answers written to the connection the peer\'s own message came '
+        'in on (PeerTransferReply, PeerTransferQueueFailed, PeerPlaceInQueueReply) are direct effects of that message',
+        'a library task is attributed to a transfer by what its coroutine was given at creation or by the task / action '
+        'that created it; a task that reaches the transfer only through a closure created elsewhere is not attributed',
         'asyncio semantics (cancellation delivered at the next step of the task, done-callbacks one iteration later) are '
         'modelled as ops and validated only differentially',
     ]
@@ -1309,14 +1873,18 @@ class C06(Property):
                 'call + return with arbitrary interleaving, _queue_remotely / _initialize_upload / _initialize_download '
                 'collapsed to first step / end with outcome, peer transfer request (also while a call holds the state lock: '
                 'the late initialisation blocks on the lock and is refused / cancelled by remove), the two phases of remove, '
-                'PeerTransferQueueFailed, PeerUploadFailed, re-queue, FAILED-without-reason downloads. Not modelled: which '
-                'transfers a cycle selects (C05; a parameter of the op here), manage_shares_changed (C08; exercised '
-                'monitor-only), file removal (exercised: executor calls suspend), user status')
+                'PeerTransferQueueFailed, PeerUploadFailed (also as the reset a status change makes), re-queue, '
+                'FAILED-without-reason downloads, `state.fail()` inside a task that goes on (FAILED upload still delivering '
+                'PeerUploadFailed: a live slot task), PeerTransferQueue for a listed upload as arrival + resumption of the '
+                'handler (re-look-up; re-queue of FAILED / COMPLETE). Not modelled: which transfers a cycle selects (C05; a '
+                'parameter of the op here), manage_shares_changed (C08; exercised monitor-only), file removal (exercised: '
+                'executor calls suspend), PeerTransferRequest(upload) / place-in-queue messages (no effect on the modelled '
+                'fields; exercised), the inventory of tasks outside the slots (monitor: the model has none by construction)')
 
     def _cases(self, seed, tier, widen):
         rng = random.Random(f'C06-{seed}')
         n = (600 if tier == 'quick' else 9000) * widen
-        m = (600 if tier == 'quick' else 9000) * widen
+        m = (900 if tier == 'quick' else 13000) * widen
         mx = 12 if tier == 'quick' else 20
         cases = list(DIRECTED) + [_gen_case(rng, mx) for _ in range(n)]
         return cases + [_gen_window_case(rng, 8 if tier == 'quick' else 12) for _ in range(m)]
@@ -1329,9 +1897,17 @@ class C06(Property):
             res.notes.append(f'{skipped} cases not run: {MAX_HANGS} cases did not come to rest on the real code')
             res.count('skipped-after-hangs', skipped)
             cases = cases[:len(impl)]
-        for c, io in zip(cases, impl):
-            if io.get('harness_error'):
-                raise RuntimeError(f'C06 harness error: {io["harness_error"]}\n{io.get("tb")}\ncase={c}')
+        # an exception while DRIVING the implementation (the harness reaches into the library from outside: a renamed
+        # private name breaks it as well as a defect would) is not a failing input: `…impl-error` is reported by
+        # vlib/common as a correspondence that no longer checks
+        bad = [(c, io) for c, io in zip(cases, impl) if io.get('harness_error')]
+        for c, io in bad[:20]:
+            res.violations.append(Violation('C06-harness-impl-error', f'{io["harness_error"]} | {(io.get("tb") or "")[-600:]}', c))
+        if bad:
+            res.count('could-not-be-driven', len(bad))
+            keep = [i for i, io in enumerate(impl) if not io.get('harness_error')]
+            cases = [cases[i] for i in keep]
+            impl = [impl[i] for i in keep]
         model = None
         scripts = []
         if model_ok:
@@ -1361,7 +1937,9 @@ class C06(Property):
                     'cycle-while-task-hangs', 'cycle-while-call-waits', 'cycle-between-task-end-and-callback',
                     'peer-request-while-call-waits', 'upload-failed-message-while-call-waits',
                     'peer-refusal-handled-after-the-call-it-waited-for',
-                    'shares-or-block-change-after-returned-call-on-upload'}:
+                    'shares-or-block-change-after-returned-call-on-upload',
+                    'call-while-upload-failed-message-pending', 'upload-peer-message-while-call-waits',
+                    'peer-queue-handler-suspended-across-returned-call', 'peer-status-while-call-waits'}:
                 res.nontrivial_keys.add(common.sha(c['ops']))
             if c.get('model', True) is False:
                 res.count('monitor-only')
@@ -1374,6 +1952,15 @@ class C06(Property):
             res.violations += _monitor(c, io)
             if len(res.samples) < 3 and c.get('kind', '').startswith('directed') and io['snaps']:
                 res.samples.append({'case': c, 'final': io['snaps'][-1]['snap']})
+        # Coverage floors.  The directed cases reach each of these situations on every run; when one is never seen the
+        # harness has lost its grip on the code (e.g. a private name it reaches into was renamed and a step silently does
+        # nothing any more) and a green run would mean nothing: the correspondence does not check.
+        if not skipped and not bad and not any(io.get('hang') for io in impl):
+            for f in FLOORS:
+                if not res.distribution.get('feature:' + f):
+                    res.disagreements.append(Disagreement(
+                        {'coverage-floor': f}, 'never reached in this run', 'reached by a directed case on every run',
+                        'harness: a situation the check is built to reach was not reached (harness or code changed)'))
         return res
 
     def replay(self, case):
